@@ -230,7 +230,7 @@ def range_bound_ok(b, next_call):
     if S.upper(hi) <= (1 << 32):
         return True, repr(hi)
     for n in list(S.nodes):
-        if n and n.startswith("len(") and S.implies(hi, guard.Term(n, 0), 64):
+        if n and re.match(r"^\(?len\(", n) and S.implies(hi, guard.Term(n, 0), 64):
             return True, repr(hi)
     if "len(" in (hi.base or ""):
         return True, repr(hi)
